@@ -18,6 +18,9 @@ REPLAY_DIR = os.environ.get("VERIF_REPLAY_DIR") or os.path.join(ROOT, "replays")
 KNOWN_FILE = os.path.join(ROOT, "known_findings.json")
 
 
+_PRINTED = {"violation": False}
+
+
 def seed():
     try:
         return int(os.environ.get("VERIF_SEED", "0"))
@@ -99,6 +102,7 @@ class Check:
             with open(path, "w") as f:
                 json.dump({"property": self.pid, "clause": clause, "seed": seed(), "tier": self.tier,
                            "behaviour": replay_obj}, f, indent=1, default=str)
+            _PRINTED["violation"] = True
             print("VIOLATION property=%s replay=%s" % (self.pid, path))
             print("  clause: %s" % clause)
             sys.stdout.flush()
@@ -248,9 +252,14 @@ def run_main(pid, fn):
     try:
         if a.replay:
             return replay_file(pid, a.replay, fn)
-        return fn(a.tier)
+        rc = fn(a.tier)
     except SystemExit:
         raise
     except Exception:
         traceback.print_exc()
-        return machinery_failure(pid, "unexpected exception in the check (see traceback)")
+        rc = machinery_failure(pid, "unexpected exception in the check (see traceback)")
+    if rc == 2 and _PRINTED["violation"]:
+        # a later stage could not run on this tree (often *because* of what the earlier stage reported): the violation stands
+        print("%s: a later stage failed after violations had been reported; exit status 1" % pid)
+        return 1
+    return rc
